@@ -26,11 +26,13 @@ import re
 from . import common
 from .common import cN, cZ, clist, copt
 
-THEOREMS_PLANNED = [
+THEOREMS = [
     "select_correct",
     "routed_request_is_declared",
     "unknown_service_raises",
+    "unknown_default_service_raises",
     "unknown_port_raises",
+    "unknown_default_port_raises",
     "unknown_method_raises",
     "explicit_pair_exact",
     "default_port_overrides_subscript",
@@ -41,8 +43,6 @@ THEOREMS_PLANNED = [
     "selection_deterministic",
 ]
 
-THEOREMS = []
-
 PRE = "From SV Require Import Lib.Base C10.Model.\n"
 
 TNS = "urn:c10:tns"
@@ -50,6 +50,7 @@ SVC_NAMES = ["SvcB", "SvcA", "SvcC"]        # by position; deliberately not sort
 PORT_NAMES = ["PrtB", "PrtA", "PrtC"]       # by position inside the service (all ports counted)
 OVERRIDE = "http://override.invalid/elsewhere"
 SOAPNS = "http://schemas.xmlsoap.org/wsdl/soap/"
+SOAP12NS = "http://schemas.xmlsoap.org/wsdl/soap12/"
 ENVNS = "http://schemas.xmlsoap.org/soap/envelope/"
 
 # operation tables: binding -> (binding style, [(op, soapAction|None, op style|None, body ns|None,
@@ -169,13 +170,19 @@ def shape_by_index(i):
     raise IndexError(i)
 
 
+def soap_prefix(mode, binding):
+    """Binding B of mode 2 is declared with the SOAP 1.2 WSDL namespace (a SOAP
+    binding all the same for suds: Binding.soaproot)."""
+    return "soap12" if (mode == 2 and binding == "BndB") else "soap"
+
+
 def render(shape):
     table = MODES[shape.mode]
     out = ['<?xml version="1.0" encoding="UTF-8"?>',
-           '<wsdl:definitions targetNamespace="%s" xmlns:tns="%s" xmlns:soap="%s" '
+           '<wsdl:definitions targetNamespace="%s" xmlns:tns="%s" xmlns:soap="%s" xmlns:soap12="%s" '
            'xmlns:http="http://schemas.xmlsoap.org/wsdl/http/" '
            'xmlns:wsdl="http://schemas.xmlsoap.org/wsdl/" '
-           'xmlns:xsd="http://www.w3.org/2001/XMLSchema">' % (TNS, TNS, SOAPNS),
+           'xmlns:xsd="http://www.w3.org/2001/XMLSchema">' % (TNS, TNS, SOAPNS, SOAP12NS),
            '<wsdl:types><xsd:schema targetNamespace="%s" elementFormDefault="qualified">' % TNS]
     for bn in sorted(table):
         for (op, _a, _s, _n, _e) in table[bn][1]:
@@ -208,24 +215,26 @@ def render(shape):
                        '</wsdl:operation></wsdl:binding>')
             continue
         bstyle, ops = table[bn]
+        sp = soap_prefix(shape.mode, bn)
         out.append('<wsdl:binding name="%s" type="tns:PT_%s">' % (bn, bn))
-        out.append('<soap:binding style="%s" transport="http://schemas.xmlsoap.org/soap/http"/>' % bstyle)
+        out.append('<%s:binding style="%s" transport="http://schemas.xmlsoap.org/soap/http"/>' % (sp, bstyle))
         for (op, action, st, ns, has_el) in ops:
             out.append('<wsdl:operation name="%s">' % op)
             if has_el:
-                out.append('<soap:operation%s%s/>' % (
-                    ' soapAction="%s"' % action if action is not None else "",
+                out.append('<%s:operation%s%s/>' % (
+                    sp, ' soapAction="%s"' % action if action is not None else "",
                     ' style="%s"' % st if st is not None else ""))
-            out.append('<wsdl:input><soap:body use="literal"%s/></wsdl:input>'
-                       '<wsdl:output><soap:body use="literal"/></wsdl:output>'
-                       % (' namespace="%s"' % ns if ns is not None else ""))
+            out.append('<wsdl:input><%s:body use="literal"%s/></wsdl:input>'
+                       '<wsdl:output><%s:body use="literal"/></wsdl:output>'
+                       % (sp, ' namespace="%s"' % ns if ns is not None else "", sp))
             out.append('</wsdl:operation>')
         out.append('</wsdl:binding>')
     for si, ports in enumerate(shape.services):
         out.append('<wsdl:service name="%s">' % SVC_NAMES[si])
         for pi, kind in enumerate(ports):
             out.append('<wsdl:port name="%s" binding="tns:%s">' % (PORT_NAMES[pi], KIND_BINDING[kind]))
-            out.append('<%s:address location="%s"/>' % ("http" if kind == "H" else "soap", url_of(si, pi)))
+            out.append('<%s:address location="%s"/>'
+                       % ("http" if kind == "H" else soap_prefix(shape.mode, KIND_BINDING[kind]), url_of(si, pi)))
             out.append('</wsdl:port>')
         out.append('</wsdl:service>')
     out.append('</wsdl:definitions>')
@@ -591,24 +600,46 @@ def all_opts():
 
 
 class Runner(object):
-    """Collects selections, runs them on the implementation."""
+    """Collects selections, runs them on the implementation and, in chunks,
+    through Coq; keeps only what the verdict needs."""
+    CHUNK = 40000
 
     def __init__(self, ck):
         self.ck = ck
         self.cases = []
         self.meta = []
-        self.seen = set()
+        self.total = 0
+        self.shapes = set()
+        self.spec_bad = []      # (shape, opts, expr, outcome) the text does not allow
+        self.disagree = []      # allowed by the text but not what the model does
+        self.samples = []
+
+    def flush(self):
+        if not self.cases:
+            return
+        res = self.ck.run_cases("sel", preamble(), "sel_case", self.cases,
+                                ["sel_agrees", "sel_spec_ok"], shard=250)
+        bad = set(res["sel_spec_ok"])
+        self.spec_bad.extend(self.meta[i] for i in res["sel_spec_ok"][:50])
+        self.disagree.extend(self.meta[i] for i in res["sel_agrees"] if i not in bad)
+        del self.disagree[50:]
+        if len(self.samples) < 4:
+            for i in (5, len(self.meta) // 3, len(self.meta) // 2, len(self.meta) - 7):
+                if 0 <= i < len(self.meta):
+                    self.samples.append(self.meta[i])
+        self.cases, self.meta = [], []
 
     def group(self, shape, selections, bucket):
         """selections: iterable of (opts, expr)."""
         client, err = make_client(shape)
         cw = c_wsdl(shape)
+        self.shapes.add(shape.key())
         cur = self          # sentinel: no options applied yet
+        seen = set()
         for (o, e) in selections:
-            k = (shape.key(), o, e)
-            if k in self.seen:
+            if (o, e) in seen:
                 continue
-            self.seen.add(k)
+            seen.add((o, e))
             if client is None:
                 x = ("loadfail", err)
             else:
@@ -623,12 +654,16 @@ class Runner(object):
                 x = observe(client, e) if ok else ("weird", 5)
             self.cases.append("(%s, %s, %s, %s)" % (cw, c_opts(o), c_expr(e), c_outcome(x)))
             self.meta.append((shape, o, e, x))
-            self.ck.seen(k, nontrivial=(x[0] == "sent" or
-                                        (x[0] == "exc" and x[1] in ("ServiceNotFound", "PortNotFound",
-                                                                    "MethodNotFound"))))
+            self.total += 1
+            self.ck.seen((shape.key(), o, e),
+                         nontrivial=(x[0] == "sent" or
+                                     (x[0] == "exc" and x[1] in ("ServiceNotFound", "PortNotFound",
+                                                                 "MethodNotFound"))))
             self.ck.count("scope:" + bucket)
             self.ck.count("outcome:" + (x[1] if x[0] == "exc" else x[0]))
             self.ck.count("depth:%d" % len(e))
+        if len(self.cases) >= self.CHUNK:
+            self.flush()
 
 
 def slice_indexes(ck, n):
@@ -761,8 +796,13 @@ def run_history(shape, evs):
 # ---------------------------------------------------------------------------
 
 def classify(ck, shape, o, e, x):
-    """Ask Coq what the text fixes for this selection; build the finding key."""
-    rc, out = ck.coq_eval(preamble(), ["route %s %s %s" % (c_wsdl(shape), c_opts(o), c_expr(e))])
+    """Ask Coq what the text fixes for this selection; build the finding key
+    ((None, None) when the outcome is what the text fixes)."""
+    rc, out = ck.coq_eval(preamble(), ["route %s %s %s" % (c_wsdl(shape), c_opts(o), c_expr(e)),
+                                       "sat (route %s %s %s) %s" % (c_wsdl(shape), c_opts(o), c_expr(e),
+                                                                    c_outcome(x))])
+    if re.search(r"=\s*true\s*:\s*bool", out):
+        return None, None
     m = re.search(r"=\s*\(?\s*(SRoute|SRaise|SFail|SNoCall)\s*([^:]*):", out, re.S)
     want = m.group(1) if m else "?"
     arg = " ".join(m.group(2).split()) if m else ""
@@ -845,8 +885,8 @@ def run(ck):
 
     run_ = Runner(ck)
     gen_selections(ck, run_)
+    run_.flush()
     pre = preamble()
-    res = ck.run_cases("sel", pre, "sel_case", run_.cases, ["sel_agrees", "sel_spec_ok"], shard=250)
 
     # histories
     hist_cases, hist_meta = [], []
@@ -867,21 +907,19 @@ def run(ck):
         ck.count("history-calls", len(calls))
     hres = ck.run_cases("hist", pre, "hist_case", hist_cases, ["hist_agrees", "hist_spec_ok"], shard=90)
 
-    for i in (5, len(run_.meta) // 3, len(run_.meta) // 2, len(run_.meta) - 7):
-        if 0 <= i < len(run_.meta):
-            sh, o, e, x = run_.meta[i]
-            ck.sample({"wsdl": sh.label(), "options": {"service": o[0], "port": o[1], "location": o[2]},
-                       "expression": show_expr(e), "implementation": describe(x)})
+    for (sh, o, e, x) in run_.samples[:4]:
+        ck.sample({"wsdl": sh.label(), "options": {"service": o[0], "port": o[1], "location": o[2]},
+                   "expression": show_expr(e), "implementation": describe(x)})
     if hist_meta:
         sh, evs, calls = hist_meta[0]
         ck.sample({"wsdl": sh.label(), "history": [list(map(repr, ev)) for ev in evs],
                    "calls": [describe(c[3]) for c in calls]})
 
     # verdicts: spec failures are failing inputs
-    spec_bad = res["sel_spec_ok"]
-    for i in spec_bad[:12]:
-        sh, o, e, x = run_.meta[i]
+    for (sh, o, e, x) in run_.spec_bad[:12]:
         cls, expected = classify(ck, sh, o, e, x)
+        if cls is None:
+            cls, expected = "unclassified", "?"
         ck.failing_input(
             "C10:" + cls,
             "%s with options service=%r port=%r location=%r on WSDL %s: %s; the WSDL and the documented rules "
@@ -889,18 +927,45 @@ def run(ck):
             {"kind": "selection", "shape": sh.to_json(), "options": list(o), "expr": [list(s) for s in e],
              "observed": describe(x), "expected": expected, "wsdl": render(sh).decode("utf-8")})
     hspec_bad = hres["hist_spec_ok"]
-    for i in hspec_bad[:6]:
+    for i in hspec_bad[:4]:
         sh, evs, calls = hist_meta[i]
+        # which call went wrong, and would a fresh client with the same options do the same?
+        key, what = None, None
+        for (c, o, e, x) in calls:
+            cls, expected = classify(ck, sh, o, e, x)
+            if cls is None:
+                continue
+            fresh, _err = make_client(sh)
+            alone = None
+            if fresh is not None:
+                try:
+                    set_options(fresh, o)
+                    alone = observe(fresh, e)
+                except Exception:
+                    alone = None
+            if alone == x:
+                key = "C10:" + cls
+                what = ("%s through client %d (options service=%r port=%r location=%r) of a history over WSDL "
+                        "%s: %s; the WSDL and the documented rules give: %s"
+                        % (show_expr(e), c, o[0], o[1], o[2], sh.label(), describe(x), expected))
+            else:
+                key = "C10:option-not-local-to-client"
+                what = ("%s through client %d, on which the harness had set service=%r port=%r location=%r, in "
+                        "a history of set_options/clone/call over clients sharing WSDL %s: %s; a fresh client "
+                        "with these options: %s; the documented rules give: %s"
+                        % (show_expr(e), c, o[0], o[1], o[2], sh.label(), describe(x),
+                           describe(alone) if alone else "?", expected))
+            break
+        if key is None:
+            key, what = "C10:history", "a history over WSDL %s does not meet the text" % sh.label()
         ck.failing_input(
-            "C10:option-not-local-to-client",
-            "a history of set_options/clone/call over clients sharing WSDL %s: some call did not go where the "
-            "options of ITS client and the WSDL say (calls: %s)" % (sh.label(), [describe(c[3]) for c in calls]),
+            key, what,
             {"kind": "history", "shape": sh.to_json(), "events": [list(ev) for ev in evs],
              "calls": [{"client": c, "options": list(o), "expr": show_expr(e), "observed": describe(x)}
                        for (c, o, e, x) in calls], "wsdl": render(sh).decode("utf-8")})
 
-    ck.extra["selections"] = len(run_.meta)
-    ck.extra["wsdl_shapes"] = len({m[0].key() for m in run_.meta})
+    ck.extra["selections"] = run_.total
+    ck.extra["wsdl_shapes"] = len(run_.shapes)
     ck.extra["histories"] = len(hist_meta)
     ck.rule = (
         "WSDL shapes: 0..3 services x 0..3 ports, each port over binding A, binding B (operation tables in 3 "
@@ -926,14 +991,12 @@ def run(ck):
     if not proof_ok:
         ck.unproved("proof obligation of C10 no longer checks: %s" % ck.proof_log[-1500:],
                     {"theorems": THEOREMS, "log": ck.proof_log[-3000:]})
-    sb = set(spec_bad)
-    disagree = [i for i in res["sel_agrees"] if i not in sb]
+    disagree = run_.disagree
     hsb = set(hspec_bad)
     hdis = [i for i in hres["hist_agrees"] if i not in hsb]
     if disagree or hdis:
         ex = []
-        for i in disagree[:5]:
-            sh, o, e, x = run_.meta[i]
+        for (sh, o, e, x) in disagree[:5]:
             ex.append({"kind": "selection", "shape": sh.to_json(), "options": list(o),
                        "expr": [list(s) for s in e], "expression": show_expr(e), "observed": describe(x)})
         for i in hdis[:3]:
